@@ -503,7 +503,12 @@ func c04Run(x *engine.X) {
 	if strings.HasPrefix(p.name, "PLAIN/") && p.typ >= 1 {
 		typ, mk := c04TypeOf(p)
 		if typ != nil {
-			for _, k := range []int{0, 1, 3, 10} {
+			tails := 1
+			if gen == 1 {
+				tails = 2
+			}
+			for _, kt := range []int{0, 1, 3, 10, 100, 101, 103, 110}[:4*tails] {
+				k, tail := kt%100, kt/100
 				var pre []parquet.Value
 				for i := 0; i < k; i++ {
 					pre = append(pre, mk(c04Distinct(p, i)))
@@ -521,17 +526,23 @@ func c04Run(x *engine.X) {
 				for i, v := range seq {
 					vals[i] = mk(v)
 				}
+				if tail == 1 {
+					// values new to the dictionary in the second half of a long insert
+					for i := len(seq) / 2; i < len(seq); i++ {
+						vals[i] = mk(c04Distinct(p, 100+i))
+					}
+				}
 				idx := make([]int32, len(vals))
 				d.Insert(idx, vals)
 				back := make([]parquet.Value, len(vals))
 				d.Lookup(idx, back)
 				for i := range vals {
 					if idx[i] < 0 || int(idx[i]) >= d.Len() {
-						x.Failf("dictionary", shape+";pre="+fmt.Sprint(k), "value %d got index %d of a dictionary of %d values", i, idx[i], d.Len())
+						x.Failf("dictionary", shape+";pre="+fmt.Sprint(k)+";tail="+fmt.Sprint(tail), "value %d got index %d of a dictionary of %d values", i, idx[i], d.Len())
 						return
 					}
 					if !bytes.Equal(d.Index(idx[i]).AppendBytes(nil), vals[i].AppendBytes(nil)) || !bytes.Equal(back[i].AppendBytes(nil), vals[i].AppendBytes(nil)) {
-						x.Failf("dictionary", shape+";pre="+fmt.Sprint(k), "dictionary with %d existing values: value %d (%x) was given index %d, which holds %x (Lookup: %x)", k, i, vals[i].AppendBytes(nil), idx[i], d.Index(idx[i]).AppendBytes(nil), back[i].AppendBytes(nil))
+						x.Failf("dictionary", shape+";pre="+fmt.Sprint(k)+";tail="+fmt.Sprint(tail), "dictionary with %d existing values: value %d (%x) was given index %d, which holds %x (Lookup: %x)", k, i, vals[i].AppendBytes(nil), idx[i], d.Index(idx[i]).AppendBytes(nil), back[i].AppendBytes(nil))
 						return
 					}
 				}
@@ -600,7 +611,7 @@ func c04Distinct(p c04Pair, i int) []byte {
 		return []byte(fmt.Sprintf("existing-%d", i))
 	default:
 		b := make([]byte, p.size)
-		b[0], b[p.size-1] = 0xee, byte(i+1)
+		b[0], b[p.size-2], b[p.size-1] = 0xee, byte((i+1)>>8), byte(i+1)
 		return b
 	}
 }
@@ -629,7 +640,7 @@ func init() {
 	Register(&engine.Prop{
 		ID:    "C04",
 		Level: "exploration",
-		Rule: "63 (encoding, type) pairs - PLAIN x 8 types, RLE booleans, hybrid RLE/bit-packed levels at widths 1..8 and int32 at widths 0..32, RLE_DICTIONARY index pages, DELTA_BINARY_PACKED int32/int64, DELTA_LENGTH_BYTE_ARRAY, DELTA_BYTE_ARRAY (byte array, flba 4/16), BYTE_STREAM_SPLIT (float, double, int32, int64, flba 4/16) - x {ALL sequences of length <=4 (6 thorough) over 5-6 boundary values; 12 structured patterns x 18 lengths around the 8/32/64/128/256/1024 block boundaries} + for the 7 value types: the sequence inserted into a dictionary of the type (empty or created with 1 / 3 / 10 existing values), every index leading back to its value - x 4 destination-buffer histories (+ reuse of a previous call's buffer) x build variants asm / no-AVX2 / purego; " +
+		Rule: "63 (encoding, type) pairs - PLAIN x 8 types, RLE booleans, hybrid RLE/bit-packed levels at widths 1..8 and int32 at widths 0..32, RLE_DICTIONARY index pages, DELTA_BINARY_PACKED int32/int64, DELTA_LENGTH_BYTE_ARRAY, DELTA_BYTE_ARRAY (byte array, flba 4/16), BYTE_STREAM_SPLIT (float, double, int32, int64, flba 4/16) - x {ALL sequences of length <=4 (6 thorough) over 5-6 boundary values; 12 structured patterns x 18 lengths around the 8/32/64/128/256/1024 block boundaries} + for the 7 value types: the sequence inserted into a dictionary of the type (empty or created with 1 / 3 / 10 existing values; for the patterns also with the second half of the sequence replaced by values new to the dictionary), every index leading back to its value - x 4 destination-buffer histories (+ reuse of a previous call's buffer) x build variants asm / no-AVX2 / purego; " +
 			"non-trivial = >=2 values, distinct by (pair, sequence)",
 		Assumptions: []string{"the independent decoder is pqref (written from Encodings.md); encoded bytes are compared across build variants case by case"},
 		Bound:       func(string) int { return 0 },
